@@ -2,6 +2,7 @@ package harness
 
 import (
 	"context"
+	"encoding/json"
 	"errors"
 	"fmt"
 	"google.golang.org/grpc/metadata"
@@ -16,7 +17,10 @@ import (
 	"testing"
 
 	ggrpc "google.golang.org/grpc"
+	"google.golang.org/grpc/codes"
+	"google.golang.org/grpc/status"
 
+	"go.6river.tech/mmmbbb/controllers"
 	"go.6river.tech/mmmbbb/faults"
 	mgrpc "go.6river.tech/mmmbbb/grpc"
 	"go.6river.tech/mmmbbb/grpc/pubsubpb"
@@ -62,6 +66,10 @@ func TestC18(t *testing.T) {
 		set := faults.NewSet(fmt.Sprintf("v%d_%d", Seed(), k))
 		var lineOps, got []string
 		nAdded := 0
+		// every third sequence injects and lists through the HTTP controller (controllers/fault-injector.go:
+		// POST /faults/inject, GET /faults) instead of calling the Set directly
+		viaCtl := k%3 == 2
+		fic := controllers.NewFaultInjectorControllerForVerif(set)
 		// independent bookkeeping of what was injected: (operation, parameters, remaining count)
 		type inj struct {
 			op     string
@@ -75,13 +83,44 @@ func TestC18(t *testing.T) {
 				op, ps, cnt := ops[r.Intn(len(ops))], randParams(2), int64(r.Intn(5)-1)
 				idx := nAdded
 				nAdded++
-				set.Add(faults.Description{Operation: op, Parameters: ps, Count: cnt,
-					OnFault: func(d faults.Description, p faults.Parameters) error { return firedErr{idx} }})
+				if viaCtl {
+					body := map[string]any{"operation": op, "count": cnt, "error": "grpc.NotFound"}
+					if len(ps) > 0 {
+						body["parameters"] = ps
+					}
+					bj, _ := json.Marshal(body)
+					code, resp, cerr := callController(nil, fic, "POST", "/faults/inject", string(bj))
+					st.Count("controller_injections", 1)
+					if cerr != nil || code != 201 {
+						violate("controller-inject", fmt.Sprintf("POST /faults/inject %s answered %d %s (%v)", bj, code, resp, cerr), true, string(bj))
+						break
+					}
+				} else {
+					set.Add(faults.Description{Operation: op, Parameters: ps, Count: cnt,
+						OnFault: func(d faults.Description, p faults.Parameters) error { return firedErr{idx} }})
+				}
 				lineOps = append(lineOps, "add~"+Enc(op)+"~"+MapStr(ps)+"~"+fmt.Sprint(cnt))
 				got = append(got, "ok")
 				injected = append(injected, &inj{op, ps, cnt})
 			case 5:
 				cur := set.Current()
+				if viaCtl {
+					// the listing as GET /faults gives it (order of the operations is the map's: grouped here)
+					code, resp, cerr := callController(nil, fic, "GET", "/faults", "")
+					var list []struct {
+						Operation string `json:"operation"`
+						Count     int64  `json:"count"`
+					}
+					if cerr != nil || code != 200 || json.Unmarshal([]byte(resp), &list) != nil {
+						violate("controller-list", fmt.Sprintf("GET /faults answered %d %s (%v)", code, resp, cerr), true, "GET /faults")
+						break
+					}
+					cur = map[string][]faults.Description{}
+					for _, e := range list {
+						cur[e.Operation] = append(cur[e.Operation], faults.Description{Operation: e.Operation, Count: e.Count})
+					}
+					st.Count("controller_listings", 1)
+				}
 				var names []string
 				for o := range cur {
 					names = append(names, o)
@@ -102,6 +141,28 @@ func TestC18(t *testing.T) {
 				var fe firedErr
 				if errors.As(err, &fe) {
 					res = fmt.Sprintf("fired:%d", fe.idx)
+				} else if err != nil && viaCtl && status.Code(err) == codes.NotFound {
+					// a fault injected through the controller does not say which one it was: the first live
+					// matching one of the operation, in the order of injection (what the model says too)
+					for ji, j := range injected {
+						if j.op == op && j.left > 0 {
+							all := true
+							for k2, v := range j.params {
+								if pv, ok := ps[k2]; !ok || pv != v {
+									all = false
+								}
+							}
+							if all {
+								fe = firedErr{ji}
+								err = fe
+								res = fmt.Sprintf("fired:%d", ji)
+								break
+							}
+						}
+					}
+					if res == "pass" {
+						res = "fired:none-matching"
+					}
 				} else if err != nil {
 					res = "err:" + err.Error()
 				}
